@@ -1135,3 +1135,6 @@ v("d132-dictterm-keeps-foreign-scalars", "C12", ER2, "        self.value = {cano
 v("d133-empty-list-content-unchecked", "C13", PBLK, "                if contents is None:\n                    raw_values = []  # the empty collection: [], ()\n                elif isinstance(contents, lark.tree.Tree) and (", "                if isinstance(contents, lark.tree.Tree) and (")
 
 v("d134-convert-records-requests-everything", "C10", VR, "            using=OrderedSet(self.columns_used_from_sources(using=using)[0]),", "            using=None,")
+
+v("d135-first-accepted-unordered", "C18", ER2, "    \"first\",\n    \"last\",\n    \"bfill\",\n    \"ffill\",\n}", "    \"last\",\n    \"bfill\",\n    \"ffill\",\n}")
+v("d135-ffill-accepted-unordered-c27", "C27", ER2, "    \"bfill\",\n    \"ffill\",\n}", "    \"bfill\",\n}")
